@@ -47,7 +47,16 @@ func (t *Template) FindTranslation(channel *Channel, locales []i18n.Locale) *Tem
 		return nil
 	}
 
-	match := i18n.NewBCP47Matcher(candidateLocales...).ForLocales(locales...)
+	// an environment without allowed languages has no default locale: the empty locale is not a BCP47
+	// tag (the matcher panics on it) and expresses no preference, so it's left out
+	preferred := make([]i18n.Locale, 0, len(locales))
+	for _, l := range locales {
+		if l != i18n.NilLocale {
+			preferred = append(preferred, l)
+		}
+	}
+
+	match := i18n.NewBCP47Matcher(candidateLocales...).ForLocales(preferred...)
 	return candidates[match]
 }
 
